@@ -13,8 +13,8 @@ def build_data(spec):
     X = C.make_X(rng, n, p, spec.get("xkind", "gauss"), rho=0.7, density=spec.get("density", 1.0))
     kind = spec.get("target", "real")
     y = C.make_target(rng, X, kind, n_tasks=spec.get("n_tasks", 2))
-    if spec.get("storage") == "csc":
-        X = C.to_storage(X, "csc")
+    if spec.get("storage") in ("csc", "csc_explicit0"):
+        X = C.to_storage(X, spec["storage"])      # (csc_explicit0: entries that are zero stay stored)
     elif spec.get("storage") == "float32":
         X = np.asfortranarray(X.astype(np.float32))
     return X, y, rng
